@@ -9,7 +9,9 @@ package c04
 import (
 	"bytes"
 	"crypto"
+	cryptoRand "crypto/rand"
 	"fmt"
+	"io"
 	"sort"
 	"sync"
 	"testing"
@@ -27,7 +29,9 @@ type scheme struct {
 	pkSize, skSize, sigSize int
 	derive                  func(seed []byte) (pk, sk interface{}, pkb, skb []byte)
 	signTo                  func(sk interface{}, msg, ctx []byte) ([]byte, error)
-	signInto                func(sk interface{}, msg, ctx, dst []byte) error // SignTo into a caller-supplied buffer
+	signInto                func(sk interface{}, msg, ctx, dst []byte) error      // SignTo into a caller-supplied buffer
+	generate                func(r io.Reader) (pkb, skb []byte, err error)        // GenerateKey(reader)
+	signRand                func(sk interface{}, msg, ctx []byte) ([]byte, error) // SignTo(randomized=true); nil if the scheme has no hedged mode
 	verify                  func(pk interface{}, msg, ctx, sig []byte) bool
 	unpackPK                func(b []byte) interface{}
 	unpackSK                func(b []byte) interface{}
@@ -888,5 +892,178 @@ func TestC04Concurrent(t *testing.T) {
 	}
 	for _, k := range keys {
 		vlib.ReportDirect(t, k, failures[k], map[string]interface{}{"workers": workers, "iters": iters})
+	}
+}
+
+// chunkReader delivers src in pieces of the given sizes (a legal io.Reader may
+// return fewer bytes than asked for) and records what it handed out.
+type chunkReader struct {
+	src       []byte
+	chunks    []int
+	calls     int
+	delivered []byte
+}
+
+func (r *chunkReader) Read(p []byte) (int, error) {
+	if len(r.src) == 0 {
+		return 0, io.EOF
+	}
+	n := len(p)
+	if c := r.chunks[r.calls%len(r.chunks)]; c > 0 && c < n {
+		n = c
+	}
+	if n > len(r.src) {
+		n = len(r.src)
+	}
+	r.calls++
+	copy(p, r.src[:n])
+	r.delivered = append(r.delivered, r.src[:n]...)
+	r.src = r.src[n:]
+	return n, nil
+}
+
+func drawChunks(t *rapid.T) ([]int, string) {
+	switch rapid.IntRange(0, 5).Draw(t, "chunking") {
+	case 0:
+		return []int{0}, "whole"
+	case 1:
+		return []int{1}, "1-byte"
+	case 2:
+		return []int{31, 1}, "31+1"
+	case 3:
+		return []int{16}, "16-byte"
+	case 4:
+		return []int{7, 3, 11}, "7/3/11"
+	}
+	return []int{rapid.IntRange(1, 40).Draw(t, "c1"), rapid.IntRange(1, 40).Draw(t, "c2")}, "random"
+}
+
+// TestC04Randomness: the places where the packages draw randomness.
+//
+//   - GenerateKey(reader) == KeyGen_internal(first 32 bytes the reader delivers), for readers that deliver
+//     everything at once or in short pieces; a reader that runs dry before 32 bytes must give an error.
+//   - Hedged signing through the public API (ML-DSA SignTo(randomized=true); the Dilithium packages have no
+//     randomized mode). The packages call crypto/rand.Read, which reads the replaceable variable
+//     crypto/rand.Reader; the check installs a recording reader there. If the call consumed exactly 32 bytes
+//     from it, the signature must equal Sign_internal(sk, M', those 32 bytes) of the reference. Whatever the
+//     source is, the certain facts are asserted with the real generator: two hedged signatures of the same
+//     (key, msg, ctx) differ from each other and from the deterministic one, and the reference accepts both.
+func TestC04Randomness(t *testing.T) {
+	defer vlib.Done()
+	selftest(t)
+	realReader := cryptoRand.Reader
+	defer func() { cryptoRand.Reader = realReader }()
+	for _, s := range schemes {
+		s := s
+		p := s.p
+		t.Run(s.name, func(t *testing.T) {
+			sub := "randomness/" + s.name
+			vlib.Check(t, vlib.N(20, 150), func(t *rapid.T) {
+				defer func() { cryptoRand.Reader = realReader }()
+				vlib.Eval(sub)
+				src := make([]byte, 96)
+				vlib.FillRandom(t, src, "entropy")
+				chunks, cname := drawChunks(t)
+				// --- GenerateKey(reader)
+				rd := &chunkReader{src: append([]byte{}, src...), chunks: chunks}
+				var pkb, skb []byte
+				var err error
+				if pn, st := vlib.Catch(func() { pkb, skb, err = s.generate(rd) }); pn != nil {
+					vlib.Report(t, "C04/panic/"+s.name+"/GenerateKey/"+vlib.PanicClass(pn), fmt.Sprintf("chunking %s: %v\n%s", cname, pn, st))
+					return
+				}
+				wpk, wsk := p.KeyGen(src[:32])
+				if err != nil || !bytes.Equal(pkb, wpk) || !bytes.Equal(skb, wsk) {
+					if vlib.Report(t, "C04/keygen/"+s.name+"/GenerateKey-reader", fmt.Sprintf("reader delivering %x… in pieces %s (%v): err=%v; key differs from KeyGen_internal(first 32 bytes) (reader handed out %d bytes in %d calls)", src[:8], cname, chunks, err, len(rd.delivered), rd.calls)) {
+						return
+					}
+				}
+				vlib.Class(sub, "GenerateKey/"+cname)
+				short := rapid.IntRange(0, 31).Draw(t, "short")
+				rd2 := &chunkReader{src: append([]byte{}, src[:short]...), chunks: chunks}
+				if _, _, err := s.generate(rd2); err == nil {
+					if vlib.Report(t, "C04/keygen/"+s.name+"/GenerateKey-short-entropy", fmt.Sprintf("GenerateKey returned a key although the reader had only %d bytes", short)) {
+						return
+					}
+				}
+				// GenerateKey(nil) documents crypto/rand.Reader
+				if rapid.IntRange(0, 3).Draw(t, "nilreader") == 0 {
+					rd3 := &chunkReader{src: append([]byte{}, src...), chunks: chunks}
+					cryptoRand.Reader = rd3
+					pkb3, skb3, err := s.generate(nil)
+					cryptoRand.Reader = realReader
+					if len(rd3.delivered) >= 32 {
+						w3p, w3s := p.KeyGen(rd3.delivered[:32])
+						if err != nil || !bytes.Equal(pkb3, w3p) || !bytes.Equal(skb3, w3s) {
+							if vlib.Report(t, "C04/keygen/"+s.name+"/GenerateKey-nil", fmt.Sprintf("GenerateKey(nil) with crypto/rand.Reader replaced (%s): err=%v, key differs from KeyGen_internal of the delivered bytes", cname, err)) {
+								return
+							}
+						}
+						vlib.Class(sub, "GenerateKey(nil)-via-rand.Reader")
+					}
+				}
+				if s.signRand == nil {
+					vlib.NonTrivial(sub, "generate", src[:32], []byte(cname))
+					return
+				}
+				// --- hedged signing
+				msg := vlib.Msg(t, "msg")
+				ctx := drawCtx(t, s)
+				sk := s.unpackSK(wsk)
+				det, _ := p.Sign(wsk, msg, ctx, make([]byte, 32))
+				rd4 := &chunkReader{src: append([]byte{}, src[32:]...), chunks: chunks}
+				cryptoRand.Reader = rd4
+				var hs []byte
+				pn, st := vlib.Catch(func() { hs, err = s.signRand(sk, msg, ctx) })
+				cryptoRand.Reader = realReader
+				if pn != nil {
+					vlib.Report(t, "C04/panic/"+s.name+"/SignTo-randomized/"+vlib.PanicClass(pn), fmt.Sprintf("%v\n%s", pn, st))
+					return
+				}
+				if err != nil {
+					vlib.Report(t, "C04/sign/"+s.name+"/randomized-error", err.Error())
+					return
+				}
+				if len(rd4.delivered) == 32 {
+					want, tr := p.Sign(wsk, msg, ctx, rd4.delivered)
+					if !bytes.Equal(hs, want) {
+						what := "differs from"
+						if bytes.Equal(hs, det) {
+							what = "equals the DETERMINISTIC signature (rnd = 0), not"
+						}
+						if vlib.Report(t, "C04/sign/"+s.name+"/hedged-public", fmt.Sprintf("seed %x msg %s ctx %s: SignTo(randomized=true) consumed rnd = %x from crypto/rand.Reader (pieces %s) but its output %s ML-DSA.Sign_internal(sk, M', rnd)", src[:32], vlib.Hex(msg), vlib.Hex(ctx), rd4.delivered, cname, what)) {
+							return
+						}
+					}
+					vlib.Class(sub, "hedged=Sign_internal(rnd-from-reader)/"+cname)
+					if len(tr.Rounds) >= 2 {
+						vlib.Class(sub, "hedged-multi-round")
+					}
+					vlib.NonTrivial(sub, "hedged", src, msg, ctx, []byte(cname))
+					vlib.Sample(sub, "hedged", fmt.Sprintf("scheme=%s xi=%x rnd=%x (delivered in pieces %s) |msg|=%d |ctx|=%d rounds=%d → public hedged SignTo == reference", s.name, src[:32], rd4.delivered, cname, len(msg), len(ctx), len(tr.Rounds)))
+				} else {
+					vlib.Class(sub, fmt.Sprintf("hedged-consumed-%d-bytes-of-rand.Reader", len(rd4.delivered)))
+				}
+				// facts that hold whatever the entropy source is (real generator)
+				h1, e1 := s.signRand(sk, msg, ctx)
+				h2, e2 := s.signRand(sk, msg, ctx)
+				if e1 != nil || e2 != nil {
+					vlib.Report(t, "C04/sign/"+s.name+"/randomized-error", fmt.Sprintf("%v %v", e1, e2))
+					return
+				}
+				if bytes.Equal(h1, h2) || bytes.Equal(h1, det) || bytes.Equal(h2, det) {
+					if vlib.Report(t, "C04/sign/"+s.name+"/hedged-not-random", fmt.Sprintf("seed %x msg %s: two hedged signatures equal=%v, equal to the deterministic signature: %v/%v", src[:32], vlib.Hex(msg), bytes.Equal(h1, h2), bytes.Equal(h1, det), bytes.Equal(h2, det))) {
+						return
+					}
+				}
+				for _, hsig := range [][]byte{h1, h2} {
+					if ok, why := p.Verify(wpk, msg, ctx, hsig); !ok {
+						if vlib.Report(t, "C04/sign/"+s.name+"/randomized-invalid", fmt.Sprintf("seed %x: hedged signature rejected by the specification (%s)", src[:32], why)) {
+							return
+						}
+					}
+				}
+			})
+		})
 	}
 }
